@@ -35,6 +35,38 @@ theorem dec_sctList (bs : Bytes) (l : List Bytes) (r : Bytes) :
   rw [ty_SCTList] at hE ⊢
   exact dec_agree _ (wf_SCTList _) sctListVal _ _ hE Rfc.decSctList_enc Rfc.sctList_dec bs l r
 
+/-- **The embedded SCT-list extension (RFC 6962 §3.3) is read exactly**: a byte string is accepted as the contents of the extension's
+OCTET STRING, with SCTs `scts`, iff it is the encoding of the list of the encodings of `scts` — no trailing byte after the list or
+after an SCT, no truncated element, and never "the SCTs that parsed before the problem". (`x509util.ParseSCTsFromCertificate` is
+compared with `Rfc.decEmbeddedSctList` on certificates carrying hand-encoded extension bodies: harness/x509util.) -/
+theorem embedded_sct_list_exact (bs : Bytes) (scts : List Rfc.SCT) :
+    Rfc.decEmbeddedSctList bs = some scts ↔ Rfc.embeddedSctList scts = some bs := by
+  unfold Rfc.decEmbeddedSctList Rfc.embeddedSctList
+  constructor
+  · intro h
+    cases hd : Rfc.decSctList bs with
+    | none => simp [hd] at h
+    | some p =>
+      obtain ⟨items, r⟩ := p
+      cases r with
+      | cons x xs => simp [hd] at h
+      | nil =>
+        simp only [hd] at h
+        obtain ⟨a, ha, hb⟩ := Rfc.sctList_dec _ _ _ hd
+        simp only [List.append_nil] at hb
+        subst hb
+        simp [bind, (Rfc.mapM_wholeSct_iff _ _).1 h, ha]
+  · intro h
+    simp only [bind, Option.bind_eq_some_iff] at h
+    obtain ⟨items, h1, h2⟩ := h
+    have := Rfc.decSctList_enc items bs [] h2
+    simp only [List.append_nil] at this
+    simp [this, (Rfc.mapM_wholeSct_iff _ _).2 h1]
+
+/-- a two-SCT list followed by one byte, and a list whose inner length overruns, are refused (seed C04-w5-2) -/
+example : Rfc.decEmbeddedSctList [0, 3, 0, 1, 7, 0] = none ∧ Rfc.decEmbeddedSctList [0, 3, 0, 2, 7] = none
+    ∧ Rfc.decEmbeddedSctList [0, 0] = none := by decide
+
 /-- the lengths of finding F4: a body of 65336 bytes (e.g. one SCT of 65334 bytes) is inside the RFC bound -/
 example (body : Bytes) (h : body.length = 65336) : (Rfc.varVector 1 65535 body).isSome = true := by
   simp [Rfc.varVector, h]
